@@ -2,12 +2,17 @@
 C15 — Containers stay sound when user code panics mid-operation (InlineVec, ThinVec), on the L0
 slot model. A fault `some k` makes the `k`-th user callback of the operation (`Clone::clone`,
 `Drop::drop`, `Default::default`, `Iterator::next`, the `resize_with` generator) panic; unwinding
-runs the modelled guards (`SliceGuard::drop`, the drop of by-value arguments and of partially
+Fault points: every user call inventoried in `Model/SlotsUserCalls.lean` — `Clone::clone`,
+`Drop::drop` (also of rejected values, guards and partially built vectors), the `pop_if` predicate,
+the `resize_with` generator, `IntoIterator::into_iter`, `Iterator::size_hint`, `Iterator::next`
+and the destructor of the caller's iterator, `P::default()` and `P::drop` of the ThinVec prefix.
+Unwinding runs the modelled guards (`SliceGuard::drop`, the drop of by-value arguments and of partially
 built local vectors) and leaves `Drain`'s tail behind. The theorems hold for EVERY `k`: they are
 proved by induction over the loops of the operations (Lemmas/Slots*.lean), not by enumeration.
 The multi-piece string construction clause of C15 is outside this file (string family).
 -/
 import HipVerif.Lemmas.SlotsStep
+import HipVerif.Model.SlotsUserCalls
 namespace HipVerif.Props.C15
 open HipVerif.Slots
 
@@ -88,5 +93,53 @@ example :
     let s := run [(none, .push), (none, .push), (some 0, .clone), (none, .push), (none, .truncate 1),
       (none, .dropVec)] (initInline 3)
     ∀ e ∈ s.mem.trace, e.bad = false := by decide
+
+/-! ### The new fault points: closures and the caller's iterator -/
+
+/-- a panicking `pop_if` predicate: nothing has been moved yet, the vector is unchanged and no
+destructor runs (the seeded mutation C15-m4 reads the element out before the call and breaks
+exactly this) -/
+example :
+    let s := run [(none, .push), (none, .push)] (initInline 3)
+    (step (some 0) (.popIf true) s).1 = .panic ∧ (step (some 0) (.popIf true) s).2.v.len = 2 ∧
+      (step (some 0) (.popIf true) s).2.mem.trace = s.mem.trace ∧
+      (step none (.popIf true) s).1 = .some 1 ∧ (step none (.popIf false) s).1 = .none := by decide
+
+/-- `ThinVec::from_iter` whose third `next` panics: the two items already stored in the new vector,
+its prefix and its buffer are released by the unwinding; the operand is untouched -/
+example :
+    let s := run [(none, .push)] (initThin 8 true)
+    (step (some 5) (.fromIter 1 3) s).1 = .panic ∧
+      (step (some 5) (.fromIter 1 3) s).2.mem.bufs = s.mem.bufs ∧
+      (step (some 5) (.fromIter 1 3) s).2.mem.trace.take 4 = [.freeBuf 1, .drop 2, .drop 4, .drop 3]
+    := by decide
+
+/-- a panicking `size_hint` / `into_iter` of the caller's iterator: nothing happened yet -/
+example :
+    let s := run [(none, .push)] (initThin 8 true)
+    (step (some 0) (.extIter 1 2) s).1 = .panic ∧ (step (some 1) (.extIter 1 2) s).1 = .panic ∧
+      (step (some 1) (.extIter 1 2) s).2.v.len = 1 ∧
+      (step (some 1) (.extIter 1 2) s).2.mem.trace = s.mem.trace := by decide
+
+/-! ### Coverage of the user-call sites
+
+`Gen/PubFns` has no parameter types; the check is per public function of the vector modules
+(see `Model/SlotsUserCalls.lean`). -/
+
+open HipVerif.Slots.UserCalls in
+#guard allClassified
+
+open HipVerif.Slots.UserCalls in
+#guard noStale
+
+/-- the model operation in which the closure / caller's iterator of a public function runs -/
+def closureOp : String → Option Op
+  | "<vecs::inline::InlineVec<T, CAP, SHIFT, TAG> as Extend<T>>::extend" => some (.extIter 0 0)
+  | "vecs::inline::InlineVec::pop_if" => some (.popIf true)
+  | "vecs::inline::InlineVec::resize_with" => some (.resizeWith 0)
+  | _ => none
+
+open HipVerif.Slots.UserCalls in
+#guard closureSites.all fun f => (closureOp f).isSome
 
 end HipVerif.Props.C15
